@@ -285,7 +285,7 @@ func DecodeAlstSampleGroupEntry(name string, length uint32, sr bits.SliceReader)
 		entry.SampleOffset[i] = sr.ReadUint32()
 	}
 
-	remaining := int(length-uint32(entry.Size())) / 4
+	remaining := (int(length) - int(entry.Size())) / 4
 	if remaining <= 0 {
 		return entry, sr.AccError()
 	}
